@@ -1,6 +1,7 @@
 // C01 - a future is resolved exactly once, by exactly one winner (competing resolvers x waiters x value types)
 #include "common_vrt.h"
 #include <memory>
+#include <vector>
 
 namespace {
 
@@ -295,6 +296,53 @@ static void scenario(int n, const int *kinds, int wk) {
     vrt_outcome("win=%d kind=%d", win, expect.kind);
 }
 
+// the winner's payload is built from the call's arguments exactly as the value type's constructor would build it
+// ("arguments are the same as for the constructor"): promise<vector<int>>(3, 7) is three sevens, not the list {3, 7}
+static void ctorform_scenario(int other) {
+    int64_t *s = vrt_scratch();
+    {
+        using V = std::vector<int>;
+        cocls::future<V> f;
+        cocls::promise<V> p = f.get_promise();
+        vstd::thread t1([&] {
+            vrt_label("r0");
+            vrt_scratch()[S_RET + 0] = p(3, 7) ? 1 : 2;
+        });
+        vstd::thread t2([&] {
+            vrt_label("r1");
+            bool r;
+            if (other == 0)
+                r = p(V{1, 2});
+            else if (other == 1)
+                r = p(std::make_exception_ptr(TestError(5)));
+            else
+                r = p(cocls::drop);
+            vrt_scratch()[S_RET + 1] = r ? 1 : 2;
+        });
+        bool has = f.has_value();  // blocks until resolved
+        t1.join();
+        t2.join();
+        VRT_CHECK((s[S_RET] == 1) + (s[S_RET + 1] == 1) == 1, "future/two-winners", "success reports: %ld %ld", (long)s[S_RET], (long)s[S_RET + 1]);
+        if (s[S_RET] == 1) {
+            VRT_CHECK(has, "future/wrong-result", "the value call won but the future has no value");
+            V &v = f.value();
+            VRT_CHECK(v == V(3, 7), "future/wrong-result", "promise<vector<int>>(3, 7) won; the future holds %zu element(s), first %d - not what vector<int>(3, 7) is", v.size(), v.empty() ? -1 : v[0]);
+        } else if (other == 0) {
+            VRT_CHECK(has && f.value() == (V{1, 2}), "future/wrong-result", "the vector {1,2} won but the future holds something else");
+        } else if (other == 1) {
+            bool threw = false;
+            try {
+                (void)f.value();
+            } catch (const TestError &e) {
+                threw = e.code == 5;
+            }
+            VRT_CHECK(has && threw, "future/wrong-result", "the exception won: has_value()=%d (true expected: value or exception), value() threw it: %d", (int)has, (int)threw);
+        } else
+            VRT_CHECK(!has, "future/wrong-result", "a drop won but has_value() is true");
+        vrt_outcome("winner=%d", s[S_RET] == 1 ? 0 : 1);
+    }
+}
+
 template <typename T>
 static void reg_type(const char *tname) {
     // all multisets of 2 and 3 resolver kinds (NOP only in the "nobody resolves" rows) x waiter kinds
@@ -325,6 +373,8 @@ VRT_REGISTER(reg_once) {
     reg_type<MoveOnly>("moveonly");
     reg_type<void>("void");
     reg_type<int &>("ref");
+    static const char *other_names[] = {"val", "exc", "drop"};
+    for (int o = 0; o < 3; o++) vrt::add(std::string("once_ctorform_") + other_names[o], [=] { ctorform_scenario(o); });
 }
 
 }  // namespace
